@@ -124,6 +124,12 @@ where
 
     // Write the restriction check
     write_check_restrictions_header(writer, rust_name, restrictions)?;
+    if restrictions.is_some() {
+        // the facets of a simple type derived from this one apply as well as this type's own
+        writeln!(writer, "     if handed_down.is_some() {{")?;
+        writeln!(writer, "         self.value.check_restrictions(handed_down)?;")?;
+        writeln!(writer, "     }}")?;
+    }
     writeln!(writer, "     self.value.check_restrictions(restrictions)")?;
     write_check_restrictions_footer(writer)?;
 
